@@ -7,6 +7,10 @@
                    are on every completing path, with no suspension point between result insert and notify;
                    the listener awaits the event and then reads the result map under the same key
   consumers        TaskResult consumers mutate state through `&mut self` outside of any future
+
+Added after the second and third seeding rounds:
+  append-only / chunk-stability  the arena rules of C18 (references held across awaits stay valid)
+  queued-in-consumer             the dependencies consumer is total: a result that arrives late is expanded like an early one
 """
 from common import *
 import q, mech
